@@ -21,6 +21,20 @@ use dnp3::udp::spawn_master_udp;
 use crate::ffi::ParamError;
 use crate::{ffi, ByteIterator};
 
+/// Names of files and directories are whatever UTF-8 the outstation sent, which may contain
+/// NUL characters. A C string ends at the first of them, so that is where the name is cut.
+pub(crate) fn file_name_to_c_string(name: String) -> CString {
+    match CString::new(name) {
+        Ok(x) => x,
+        Err(err) => {
+            let end = err.nul_position();
+            let mut bytes = err.into_vec();
+            bytes.truncate(end);
+            CString::new(bytes).unwrap_or_default()
+        }
+    }
+}
+
 pub struct FileInfoIterator {
     inner: std::vec::IntoIter<FileInfo>,
     current_name: CString,
@@ -38,7 +52,7 @@ impl FileInfoIterator {
 
     pub(crate) fn next(&mut self) -> Option<&ffi::FileInfo> {
         let next = self.inner.next()?;
-        self.current_name = CString::new(next.name).unwrap();
+        self.current_name = file_name_to_c_string(next.name);
         let file_type: ffi::FileType = next.file_type.into();
         self.current_info = Some(ffi::FileInfo {
             file_name: self.current_name.as_ptr(),
